@@ -1054,6 +1054,13 @@ Qed.
    (restricted to the names visible where the closure was created) and its writes go to that store: capture by
    reference, sharing between sibling closures and visibility of the writes in main are built into the meaning.
 
+   (Left out of FC: the call  DynamicCall (ReadVar c) []  standing directly as a card of main.  The compiler emits
+   ReadLocalVar c; CallFunction and no Pop there, so the returned nil stays on the value stack above the locals; a later
+   declaration  SetVar z e  - SetLocalVar (number of locals) - overwrites the lowest such leftover, and the Pops at the
+   end of main remove leftovers instead of locals (harmless: Exit follows, CloseUpvalue k names its slot).  On an instance
+   with such calls between declarations and captures compile + Vm.run still agree with eval_program; the stack shape
+   "locals ++ leftovers" is what a proof would have to carry.)
+
    PROVED (reference half, C06SimFcRef.v .. C06SimFcRef4.v): C06_fc_reference_meaning - for every program of FC,
      eval_program fuel M host = PObs o  implies  (ob_kind o, ob_globals o) = obs_fc (main_cards M):
    RefSem's cells / scopes / closure records compute exactly that meaning (the invariant C06SimFcRef2.inv: main's scope
